@@ -3,10 +3,11 @@
 
   seedtool.py verify <srcdir> <prop> <name>    confirm a candidate in a scratch worktree (suite passes, demo fails with / passes without),
                                                 then store it as /verif/seeded/<prop>-<name>/ {patch.diff, demo files, meta.json}
-  seedtool.py run <prop>-<name> [check ids...]  apply the stored patch to /repo, run the named checks (default: the owner) quick, undo the patch
+  seedtool.py run <prop>-<name> [check ids...]  apply the stored patch to a scratch worktree of /repo HEAD, run the named checks (default: the owner) quick
+                                                against it (alternate go.mod, work and evidence directories), remove the worktree
   seedtool.py runall                            run every stored seed against its owning check, print a table
 
-Nothing is ever committed to /repo; the patch is undone with `git checkout -- .` even on failure.
+Nothing is ever committed to /repo, and since the runs use a scratch worktree /repo's working tree is not touched either.
 """
 import glob, json, os, re, shutil, subprocess, sys, time
 
@@ -123,25 +124,33 @@ def verify(src, prop, name):
 
 
 def run(seed, checks=None, tier="quick"):
+    """run checks against the seeded change in a scratch worktree of /repo's HEAD (nothing in /repo, /verif/evidence or
+    /verif/.work is touched, so checks of the real tree can run at the same time)"""
     d = os.path.join(SEEDED, seed)
     prop = seed.split("-")[0]
     checks = checks or [prop]
-    rc, out = sh("git -C /repo status --porcelain")
-    assert out.strip() == "", "/repo is not clean: " + out
-    rc, out = sh("git -C /repo apply %s/patch.diff" % d)
-    if rc != 0:
-        return {"seed": seed, "error": "patch does not apply: " + out[-300:]}
+    wt = "/tmp/wt/run-%s" % seed
+    scratch = "/tmp/wt/runwork-%s" % seed
+    sh("git -C /repo worktree remove --force %s" % wt)
+    shutil.rmtree(wt, ignore_errors=True)
+    shutil.rmtree(scratch, ignore_errors=True)
+    rc, out = sh("git -C /repo worktree add -q --detach %s HEAD" % wt)
+    assert rc == 0, out
     res = {"seed": seed}
-    # runs against a patched tree are not evidence for the real one: the evidence files are put back afterwards
-    saved = {}
-    for c in checks:
-        p = os.path.join(ROOT, "evidence", c + ".json")
-        if os.path.exists(p):
-            saved[p] = open(p, "rb").read()
     try:
+        rc, out = sh("git -C %s apply %s/patch.diff" % (wt, d))
+        if rc != 0:
+            rc, out = sh("git -C %s apply -3 %s/patch.diff" % (wt, d))
+            if rc != 0:
+                return {"seed": seed, "error": "patch does not apply to the current head: " + out[-300:]}
+        os.makedirs(scratch)
+        gm = open(os.path.join(ROOT, "harness", "go.mod")).read().replace("=> /repo/v2", "=> %s/v2" % wt)
+        open(os.path.join(scratch, "go.mod"), "w").write(gm)
+        shutil.copyfile(os.path.join(ROOT, "harness", "go.sum"), os.path.join(scratch, "go.sum"))
+        envs = "VERIF_REPO=%s VERIF_MODFILE=%s/go.mod VERIF_WORK=%s/work VERIF_EVIDENCE_DIR=%s/evidence" % (wt, scratch, scratch, scratch)
         for c in checks:
             t0 = time.time()
-            rc, out = sh("cd %s && ./vcheck run %s %s" % (ROOT, c, tier), timeout=7200)
+            rc, out = sh("cd %s && %s ./vcheck run %s %s" % (ROOT, envs, c, tier), timeout=7200)
             viol = [l for l in out.splitlines() if l.startswith("VIOLATION")]
             res[c] = {"exit": rc, "detected": rc == 1 and bool(viol), "secs": round(time.time() - t0, 1), "tail": out[-700:]}
             via = ""
@@ -149,35 +158,31 @@ def run(seed, checks=None, tier="quick"):
                 m = re.search(r"replay=(\S+)", l)
                 if m:
                     via = "generated search (shrunk case kept as caught_by_%s.json)" % c if "/found_" in m.group(1) else "replay tier: " + os.path.relpath(m.group(1), ROOT)
-            # remember the outcome next to the seed (meta.json: detection -> check -> result)
+            det = {"tier": tier, "detected": res[c]["detected"], "exit": rc, "secs": res[c]["secs"], "via": via}
+            if via.startswith("replay tier"):
+                # the regression tier stopped the run: does the generated search find it on its own?
+                t1 = time.time()
+                rc2, out2 = sh("cd %s && %s VERIF_SKIP_REPLAY=1 ./vcheck run %s %s" % (ROOT, envs, c, tier), timeout=7200)
+                v2 = [l for l in out2.splitlines() if l.startswith("VIOLATION")]
+                det["search_alone"] = {"detected": rc2 == 1 and bool(v2), "exit": rc2, "secs": round(time.time() - t1, 1)}
+                viol += v2
+            # violations found under a seeded patch are not regression cases for the real tree
+            for l in viol:
+                m = re.search(r"replay=(\S+)", l)
+                if m and "/found_" in m.group(1) and os.path.exists(m.group(1)):
+                    shutil.move(m.group(1), os.path.join(d, "caught_by_%s.json" % c))
             mp = os.path.join(d, "meta.json")
             try:
                 meta = json.load(open(mp))
             except Exception:
                 meta = {}
-            det = {"tier": tier, "detected": res[c]["detected"], "exit": rc, "secs": res[c]["secs"], "via": via}
-            if via.startswith("replay tier"):
-                # the regression tier stopped the run: does the generated search find it on its own?
-                t1 = time.time()
-                rc2, out2 = sh("cd %s && VERIF_SKIP_REPLAY=1 ./vcheck run %s %s" % (ROOT, c, tier), timeout=7200)
-                v2 = [l for l in out2.splitlines() if l.startswith("VIOLATION")]
-                det["search_alone"] = {"detected": rc2 == 1 and bool(v2), "exit": rc2, "secs": round(time.time() - t1, 1)}
-                for l in v2:
-                    m = re.search(r"replay=(\S+)", l)
-                    if m and "/found_" in m.group(1) and os.path.exists(m.group(1)):
-                        shutil.move(m.group(1), os.path.join(d, "caught_by_%s.json" % c))
             meta.setdefault("detection", {})[c] = det
             json.dump(meta, open(mp, "w"), indent=1)
-            # violations found under a seeded patch are not regression cases for the real tree
-            for l in viol:
-                m = re.search(r"replay=(\S+)", l)
-                if m and "/found_" in m.group(1) and os.path.exists(m.group(1)):
-                    keep = os.path.join(d, "caught_by_%s.json" % c)
-                    shutil.move(m.group(1), keep)
     finally:
-        sh("git -C /repo checkout -- .")
-        for p, b in saved.items():
-            open(p, "wb").write(b)
+        sh("git -C /repo worktree remove --force %s" % wt)
+        shutil.rmtree(wt, ignore_errors=True)
+        shutil.rmtree(scratch, ignore_errors=True)
+        sh("git -C /repo worktree prune")
     return res
 
 
